@@ -142,6 +142,9 @@ def batch_history(max_n, seed, count):
     for it in range(count):
         s1, s2, s3 = rnd.choice(shapes), rnd.choice(shapes), rnd.choice(shapes)
         c1, c2, c3 = rnd.choice(list(R.all_cards(s1))), rnd.choice(list(R.all_cards(s2))), rnd.choice(list(R.all_cards(s3)))
+        if it % 3 == 0:       # unbounded upper limits ([a..*] is stored as card_max == -1) and limits above the child count
+            c1 = [(a, rnd.choice([-1, b, len(cs) + 1])) if len(cs) > 1 else (a, b) for (a, b), (p, cs) in zip(c1, R.relations_of(s1))]
+            c2 = [(a, rnd.choice([-1, b])) if len(cs) > 1 else (a, b) for (a, b), (p, cs) in zip(c2, R.relations_of(s2))]
         for opi in range(len(OPS)):
             res['instances'] += 1
             res['native_runs'] += 1
@@ -452,7 +455,7 @@ def conditions(tier, seed):
         pairs.append((si, s, sj, s2))
     for opi, cls in enumerate(OPS):
         for (si, s, sj, s2) in (pairs if tier != 'quick' else pairs[opi % 2::2]):
-            p1, pre1, e1 = cards_params(s)
+            p1, pre1, e1 = cards_params(s, star=True)       # the first model may carry [a..*] groups (card_max == -1)
             r2 = R.relations_of(s2)
             p2 = ', '.join('c%d: int, d%d: int' % (i, i) for i in range(len(r2)))
             pre2 = ['0 <= c%d <= d%d <= %d and d%d >= 1' % (i, i, len(cs), i) for i, (p, cs) in enumerate(r2)]
